@@ -91,10 +91,16 @@ def check_loop(chk, inst, res, where, *, jaxpr=P("jaxpr"), eqns=None, const_wrap
             okp = True
             n_bind += 1
         star = args[0] if args and is_t(args[0], "star") else None
-        okargs = okp and star is not None and is_t(star[1], "bin") and star[1][1] == "+" and star[1][2] == mk_proj(gbp, 0)
-        inv = star[1][3] if okargs else None
+        if len(args) == 2 and all(is_t(a_, "star") for a_ in args) and args[0][1] == mk_proj(gbp, 0):
+            # f(*subfuns, *invals) - the same operands as f(*(subfuns + invals))
+            okargs, inv = bool(okp), args[1][1]
+        else:
+            okargs = okp and len(args) == 1 and star is not None and is_t(star[1], "bin") and star[1][1] == "+" and star[1][2] == mk_proj(gbp, 0)
+            inv = star[1][3] if okargs else None
         reads = [x for x in subterms(inv)] if inv is not None else []
-        okread = inv is not None and any(env_read_over(x, envs) == ("attr", E, "invars") for x in reads)
+        XI = ("attr", E, "invars")
+        okread = inv is not None and (any(env_read_over(x, envs) == XI for x in reads)
+                                      or any(is_t(x, "fam") and x[1] == XI and any(mentions(x[2], ("call", ("attr", e_, "read"), (("elem", XI),), ())) for e_ in envs) for x in reads))
         okkw = dict(leaf[3]).get("**") == mk_proj(gbp, 1)
         chk.require(okargs and okread and okkw, rule, f"{inst}/eqn-{kind}", f"{kind}: this equation's primitive on values read from this equation's invars with its params",
                     derived=show(leaf)[:260], expected="(subfuns + [env.read(v) for v in eqn.invars]) and **params, both from eqn.primitive.get_bind_params(eqn.params)", where=where)
@@ -104,17 +110,22 @@ def check_loop(chk, inst, res, where, *, jaxpr=P("jaxpr"), eqns=None, const_wrap
     if not final_read:
         return dict(outvals=outvals, leaves=leaves)
     ret = res.ret
-    is_read = lambda t: len(envs) == 1 and env_read_over(t, envs) == A("outvars")
-    # the outputs are the read itself, or an elementwise post-processing of it (a family over the read); `out_wrap(elem, body)` judges the latter
-    read = ret[1] if is_t(ret, "fam") and not is_read(ret) and is_read(ret[1]) else ret
-    okret = is_read(read)
+    X = A("outvars")
+    READ = None
+    if len(envs) == 1:
+        READ = ("call", ("attr", list(envs)[0], "read"), (("elem", X),), ())
+    raw = len(envs) == 1 and env_read_over(ret, envs) == X
+    # the outputs are the read itself, or an elementwise post-processing of it (one comprehension over jaxpr.outvars, or over the mapped read - the same
+    # term); `out_wrap(value read, body)` judges the post-processing
+    post = (not raw) and READ is not None and is_t(ret, "fam") and ret[1] == X and mentions(ret[2], READ)
+    okret = raw or post
     chk.require(okret, rule, inst + "/outputs", "outputs read after the loop", derived=show(ret)[:160], expected="safe_map(env.read, jaxpr.outvars)", where=where)
     if okret and out_wrap is not None:
-        body = ret[2] if is_t(ret, "fam") else None
-        okw, exp = out_wrap(mk_elem(read), body)
+        body = ret[2] if post else None
+        okw, exp = out_wrap(READ, body)
         chk.require(okw, rule, inst + "/outputs-wrapped", "post-processing of the values read for jaxpr.outvars", derived=show(body)[:200] if body is not None else "the raw read is returned", expected=exp, where=where)
-    elif okret and is_t(ret, "fam"):
-        chk.require(ret[2] == mk_elem(read), rule, inst + "/outputs-wrapped", "outputs are returned as read", derived=show(ret[2])[:200], expected="the values read, unchanged", where=where)
+    elif okret and post:
+        chk.require(ret[2] == READ, rule, inst + "/outputs-wrapped", "outputs are returned as read", derived=show(ret[2])[:200], expected="the values read, unchanged", where=where)
     return dict(outvals=outvals, leaves=leaves)
 
 
